@@ -1,4 +1,4 @@
-SERVED = ["C17", "C20"]
+SERVED = ["C13", "C17", "C20"]
 HOOKS = {
     "guard": "PSYCHEC_VERIF",
     "enable": "harness/Makefile compiles /repo's sources with -DPSYCHEC_VERIF into /verif/.cache/build-<flavour>/; "
@@ -44,5 +44,18 @@ CHECKS = {
                 "(citations per row); extraction (ExtrOcamlBasic); harness. Modelled not verified: lexIdentifier passing exactly the word to recognize/translate. "
                 "Print Assumptions: closed under the global context.",
         "technique": "Coq proof by verified symbolic checker (reflection, vm_compute) on a model regenerated from the source + translation validation",
+    },
+    "C13": {
+        "text": "Theorems over the conversion functions as regenerated from TypeChecker.cpp on this run (IR + interpreter): C13_binary_types — for all 13 operators "
+                "and all 18x18 ordered operand kinds the recorded type (or rejection) equals C11 6.3.1.1/6.3.1.8/6.5.5-6.5.9 on LP64, except at the recorded, "
+                "still-active findings; C13_promotions; C13_predicates; C13_integer_constant — for EVERY value v (unbounded Z), suffix and base class, "
+                "selectTypeForValue over the regenerated candidate arrays returns the first type of the 6.4.4.1p5 list that represents v whenever one does "
+                "(induction on the candidate list), and C13_integer_constant_total for v < 2^64.  Floating/character constant types, the operator dispatch, "
+                "std::stoull and the compound assignments are tied/decided by exhaustive correspondence (all pairs x 20 operators as programs; boundary constants x bases x suffix spellings).",
+        "design_ref": "DESIGN.md section 6, C13 and Appendix C",
+        "note": "Trusted: Coq kernel incl. vm_compute; translators cxx2ir.py/c13.py + IR semantics (validated each run against the compiled functions over their whole domain); "
+                "hand-written dispatch/selectTypeForValue models (tied by correspondence); spec C13Spec.v; LP64 only (the implementation's conversions never consult PlatformOptions). "
+                "Print Assumptions: closed under the global context.",
+        "technique": "Coq proof: finite sweeps lifted to forall over enumerated kinds (vm_compute) on a model regenerated from the source + induction for all constant values; exhaustive correspondence",
     },
 }
